@@ -285,9 +285,28 @@ def directed_config(rng, required, max_steps, goal_at_once=False, defender=False
 def directed(rng, k):
     """Run the k-th directed scenario; returns (Session, cfg, draw)."""
     kinds = ["eof", "readerr", "quit", "undecodable"]
-    variant = (k // 10) % 2
-    k = k % 10
-    if k == 8:
+    variant = (k // 11) % 2
+    k = k % 11
+    if k == 10:
+        # an agent changes the world and leaves; the idle rest of the game resets; a newcomer joins: the reset must give the
+        # pristine world whoever acted before (the remaining agents have not taken a single step)
+        cfg, draw = directed_config(rng, 2, 6)
+        S = CR.Session(cfg, draw=draw)
+        a, b, c = ("10.2.10.1", 1), ("10.2.10.2", 2), ("10.2.10.3", 3)
+        S.connect(a); S.connect(b); S.settle()
+        _join(S, a, "idle", "Attacker"); _join(S, b, "busy", "Defender"); S.settle()
+        for blocked in ("192.168.1.3", "192.168.1.4"):
+            t, d = game_msg("BlockIP", source_host=ip("192.168.1.2"), target_host=ip("192.168.1.2"), blocked_host=ip(blocked))
+            S.send(b, t, d); S.settle()
+        _leave(S, b, rng.choice(kinds)); S.settle()
+        _reset(S, a, False); S.settle()
+        S.connect(c); S.settle()
+        _join(S, c, "new", "Defender"); S.settle()
+        t, d = game_msg("FindServices", source_host=ip("192.168.1.2"), target_host=ip("192.168.1.3"))
+        S.send(c, t, d); S.settle()
+        _scan(S, a); S.settle()
+        _reset(S, a, True); _reset(S, c, False); S.settle()
+    elif k == 8:
         # two attackers and a defender: one attacker reaches the goal, the other runs out of steps; the defender's reason and
         # bonus must reflect that SOME attacker succeeded, whichever joined first
         cfg, draw = directed_config(rng, 3, 2)
